@@ -73,6 +73,7 @@ HARNESSES = [
     # bulk insertion / conversions
     H('c_extend', 'C01 C03 C04 C11 C12', unwind=lambda n: n + 5),
     H('c_from_iter', 'C03 C11 C12', unwind=lambda n: n + 5),
+    H('c_extend_ref', 'C01 C11 C12', call=lambda n: 'c_extend_ref::<%d, %d>()' % (n, n + 2), unwind=lambda n: n + 5),
     H('c_extend_from_slice', 'C01 C03 C04 C11', call=lambda n: 'c_extend_from_slice::<%d, %d>()' % (n, n + 2), unwind=lambda n: n + 5),
     H('c_new', 'C11 C12'),
     H('c_boxed', 'C12', cfg='feature = "alloc"', ns_q=[0, 3], ns_t=[0, 1, 3]),
@@ -195,6 +196,7 @@ HARNESSES += _extra
 HARNESSES += [
     H('p_destructor_panic', 'C05', native_only=True, untagged='', ns_q=[1, 2, 3], ns_t=[1, 2, 3, 4]),
     H('p_callback_panic', 'C06', native_only=True, untagged='', ns_q=[1, 2, 3], ns_t=[1, 2, 3, 4]),
+    H('p_documented_panic', 'C11', native_only=True, untagged='', ns_q=[0, 1, 2, 3], ns_t=[0, 1, 2, 3, 4]),
 ]
 for _n, _m in [(0, 2), (1, 3), (2, 2), (2, 4), (3, 5)]:
     HARNESSES.append(H('p_destructor_panic_owned', 'C05', name='p_destructor_panic_owned_m%d' % _m, native_only=True, untagged='',
